@@ -1,0 +1,26 @@
+//go:build verif
+
+package blake2b
+
+import "golang.org/x/sys/cpu"
+
+// Verification hooks (property C16): expose the dispatching and the generic
+// 4-way block hashers side by side so the AVX2 and portable paths can be compared.
+
+// VerifHashBlocks calls the dispatching hashBlocks (AVX2 when available).
+func VerifHashBlocks(outs *[4][32]byte, msgs *[4][64]byte, prefix uint64) {
+	hashBlocks(outs, msgs, prefix)
+}
+
+// VerifHashBlocksGeneric calls the portable hashBlocksGeneric.
+func VerifHashBlocksGeneric(outs *[4][32]byte, msgs *[4][64]byte, prefix uint64) {
+	hashBlocksGeneric(outs, msgs, prefix)
+}
+
+// VerifHashBlock calls the single-block hashBlock.
+func VerifHashBlock(msg *[64]byte, prefix uint64) [32]byte {
+	return hashBlock(msg, prefix)
+}
+
+// VerifHasAVX2 reports whether hashBlocks dispatches to the AVX2 assembly.
+func VerifHasAVX2() bool { return cpu.X86.HasAVX2 }
